@@ -222,8 +222,25 @@ def run_shards(pid, specs, timeout):
         shutil.rmtree(outdir, ignore_errors=True)
 
 
+def executable_lines(path):
+    """line numbers that carry code (from the code objects of the compiled file) and the source lines"""
+    with open(path) as f:
+        src = f.read()
+    out = set()
+
+    def rec(co):
+        for _, _, ln in co.co_lines():
+            if ln:
+                out.add(ln)
+        for c in co.co_consts:
+            if hasattr(c, 'co_lines'):
+                rec(c)
+    rec(compile(src, path, 'exec'))
+    return out, src.splitlines()
+
+
 def merge(results):
-    m = {'counters': collections.Counter(), 'nontrivial': set(), 'violations': [],
+    m = {'counters': collections.Counter(), 'nontrivial': set(), 'violations': [], 'linecov': set(),
          'violation_counts': collections.Counter(), 'known': collections.Counter(), 'known_ex': {},
          'samples': [], 'sets': collections.defaultdict(set), 'problems': []}
     for r in results:
@@ -233,6 +250,7 @@ def merge(results):
             if res is None:
                 continue
         m['counters'].update(res['counters'])
+        m['linecov'].update(tuple(x) for x in res.get('linecov') or ())
         m['nontrivial'].update(res['nontrivial'])
         m['violations'].extend(res['violations'])
         m['violation_counts'].update(res['violation_counts'])
